@@ -325,6 +325,13 @@ def ag5(m, run, rule='AG5.serial-parallel'):
             it = it.args[0]
         it_txt = norm(it)
     same_iter = it_txt == mapped
+
+    def resolved(fn, txt):
+        # a local passed to the worker stands for its (single) definition: `tol` must be the same option with the same default on both sides
+        ds = [x.value for x in walk_no_nested(fn.node) if isinstance(x, ast.Assign) and len(x.targets) == 1 and isinstance(x.targets[0], ast.Name) and x.targets[0].id == txt]
+        return norm(ds[0]) if len(ds) == 1 else txt
+    sargs = {k: resolved(st, v) for k, v in sargs.items()}
+    pargs = {k: resolved(mp, v) for k, v in pargs.items()}
     rest_s = {k: v for k, v in sargs.items() if k != wparams[0]} if wparams else sargs
     ok = same_iter and rest_s == pargs
     run.ob(rule, '_voxelize :: same worker arguments', ok,
